@@ -15,6 +15,7 @@ func init() {
 			"PV-PAIR: each window series is reported as Aggregate(its points) with its label set; empty series deleted",
 			"AF selectLogs window; the merge iterator rules of C04 (windows are filled from a time-ordered stream); PV-WRITEBACK: a modified copy of a window series is stored back or deleted on every path",
 			"the key list the output loop walks is computed from the window in this step; since/until of openLog (C02); PV-RESET step stamped",
+			"FE-BOOL IsInstant; PV-PAIR: a sample carries the label set built for its own entry",
 		},
 		NotDecided: []string{"numeric results of the aggregators (Welford, quantile interpolation)", "that the storage delivers samples in time order", "equality instant = range at T beyond the shared code path"},
 		Rules: func(r *Run) {
